@@ -109,6 +109,14 @@ Definition set_row_style (rw s : Z) (sh : sheet) : sheet :=
              (fun r => mkRow (r_r r) (map (fun c => mkCell (c_col c) (c_row c) s (c_t c) (c_v c) (c_f c)) (r_cells r)) s (r_ht r) (r_hidden r)))
           (cols sh1) (merges sh1).
 
+(* col.go:SetColStyle on one column: replace the column definition, then SetCellStyle on the column's cell
+   in every existing row *)
+Fixpoint set_style_rows (col s : Z) (k : nat) (rw : Z) (sh : sheet) : sheet :=
+  match k with O => sh | S k' => set_style_rows col s k' (rw + 1) (set_style col rw s sh) end.
+Definition set_col_style (col s : Z) (sh : sheet) : sheet :=
+  let cs := (col, col, s) :: filter (fun e => let '(mn, mx, _) := e in negb ((mn =? col) && (mx =? col))) (cols sh) in
+  set_style_rows col s (length (rows sh)) 1 (mkSheet (rows sh) cs (merges sh)).
+
 (* merge.go:MergeCell: clear every covered cell except the top-left one, then append the range *)
 Fixpoint clear_cells (cells : list (Z * Z)) (sh : sheet) : sheet :=
   match cells with
@@ -242,6 +250,7 @@ Inductive op :=
 | OFormula (col rw : Z) (f : bytes)
 | OStyle (col rw s : Z)
 | ORowStyle (rw s : Z)
+| OColStyle (col s : Z)
 | OMerge (c1 r1 c2 r2 : Z)
 | OSave.
 
@@ -251,6 +260,7 @@ Definition step (sh : sheet) (o : op) : sheet :=
   | OFormula col rw f => set_formula col rw f sh
   | OStyle col rw s => set_style col rw s sh
   | ORowStyle rw s => set_row_style rw s sh
+  | OColStyle col s => set_col_style col s sh
   | OMerge c1 r1 c2 r2 => merge_cell (c1, r1, c2, r2) sh
   | OSave => save sh
   end.
@@ -259,6 +269,7 @@ Definition op_ok (o : op) : Prop :=
   match o with
   | OSet col rw _ _ | OFormula col rw _ | OStyle col rw _ => 1 <= col /\ 1 <= rw
   | ORowStyle rw _ => 1 <= rw
+  | OColStyle col _ => 1 <= col
   | OMerge c1 r1 c2 r2 => 1 <= c1 <= c2 /\ 1 <= r1 <= r2
   | OSave => True
   end.
